@@ -19,6 +19,7 @@ type schemaGen struct {
 	plain   bool // no $ref/$id/$anchor/$schema/$vocabulary: Resolve must succeed
 	hasPO   bool
 	nfields int
+	sharedTypes []string
 }
 
 func (g *schemaGen) anyValue(depth int) any {
@@ -132,6 +133,15 @@ func (g *schemaGen) schema(depth int) *js.Schema {
 				a = shuffled(r, typePool)[:r.intn(3)]
 				if a == nil {
 					a = []string{}
+				}
+				if r.chance(1, 3) {
+					// type lists cut from one shared array (a Go program's `scalars[:1]`, `scalars`):
+					// what one schema's list has beyond its length is another schema's entry
+					if g.sharedTypes == nil {
+						g.sharedTypes = shuffled(r, []string{"number", "string", "boolean", "null", "number", "array"})
+					}
+					k := r.intn(len(g.sharedTypes))
+					a = g.sharedTypes[k : k+1+r.intn(len(g.sharedTypes)-k)]
 				}
 			}
 			if f.Name == "PropertyOrder" {
